@@ -103,7 +103,7 @@ def build_base(p):
             t = T.trim_cells(t, p["n_cells"], rng)
             # reject degenerate geometry: very short ridges make junctions ill-defined for any method
             ext = t.extent()
-            if min(abs(t.J[r.a] - t.J[r.b]) for r in t.ridges) < 1e-3 * ext:
+            if min(abs(t.J[r.a] - t.J[r.b]) for r in t.ridges) < p.get("min_ridge_rel", 1e-3) * ext:
                 continue
             break
         else:
